@@ -38,7 +38,7 @@ type Case struct {
 func typeOpts() gen.TypeOpts {
 	return gen.TypeOpts{Depth: 3, Width: 4,
 		Leaves:  append(append([]ref.Kind{}, gen.AllScalars...), ref.KValue, ref.KInt8, ref.KUint8, ref.KInt16, ref.KUint16),
-		MapKeys: gen.KeyScalars, Structs: true, Tuples: true, Maps: true, Lists: true, Template: false, ZeroMem: true}
+		MapKeys: gen.KeyScalars, Structs: true, Tuples: true, Maps: true, Lists: true, Template: false, ZeroMem: true, CompositeKeys: true}
 }
 
 func genCase(t *rapid.T) Case {
